@@ -271,6 +271,8 @@ impl AllocVar<Element, Fq> for ElementVar {
                 //
                 // 1. Encode (out of circuit) to an Fq
                 let field_element = group_projective_point.vartime_compress_to_field();
+                #[cfg(decaf377_verif)]
+                let field_element = super::fqvar_ext::verif_hints::next_enc_hint().unwrap_or(field_element);
 
                 // 2. Witness the encoded value
                 let compressed_P_var = FqVar::new_witness(cs, || Ok(field_element))?;
